@@ -128,6 +128,7 @@ func newLockAudit(c *Ctx, pkg string, guards map[*types.Var]*types.Var, maxVisit
 	for _, f := range la.fns {
 		f := f
 		e := &PPA{
+			NoAuto:     true,
 			TraceLoads: true,
 			MaxVisits:  maxVisits,
 			Inline: func(fr *Frame, call ssa.CallInstruction, callee *ssa.Function) bool {
